@@ -84,6 +84,12 @@ MkCheck(P, T, e) ==
        THEN "mk.replay-mismatch"                                   \* spec -> code: the behaviour TLC produced
   ELSE "ok"
 
+\* splitting a cell that already has children replaces its child list: the evidence held below it is no longer
+\* reachable from the root (C04 as well as C03/C06)
+MkCheckEv(P, T, e, holds(_)) ==
+  LET c0 == MkCheck(P, T, e) IN
+  IF c0 = "mk.guard-leaf" /\ (\E d \in ReachFrom(T, SeqRange(T.kids[e.p])) : holds(d)) THEN "mk.guard-leaf.evidence-discarded" ELSE c0
+
 MkApply(P, T, e) == MkB(P, T, e.p, [j \in 1 .. Arity(P) |-> e.new[j].box])
 
 \* a public call must leave the structure alone except through make_children events
